@@ -146,8 +146,11 @@ def unsubscribeConn (b : B) (c : Conn) (ssid : Path) (channel : Bytes) : B × Ou
 
 /-! ## history -/
 
+/-- `ID.HasPrefix` + `ID.Match`: the storage key prefix is `contract ^ firstLevel`, so the
+contract and the first channel level are compared literally; deeper levels may be wildcards -/
 def ssidMatches (q s : Path) : Bool :=
-  q.length ≤ s.length && (q.zip s).all (fun (a, x) => a == x || a == Trie.wildcard || a == Trie.multiWildcard)
+  q.length ≤ s.length && q.take 2 == s.take 2 &&
+  (q.zip s).all (fun (a, x) => a == x || a == Trie.wildcard || a == Trie.multiWildcard)
 
 /-- `store.Query(ssid, window, limit)` restricted to what a single-second session can observe:
 the `limit` most recently stored messages whose ssid has the query as a level-wise prefix -/
@@ -184,7 +187,7 @@ deriving Repr
 def ttlOf (retain : Bool) (ch : Channel) : Nat :=
   let t0 : Nat := if retain then Generated.msgRetainedTTL else 0
   match ch.ttl with
-  | some t => if t > 0 then (t % 4294967296).toNat else t0          -- `uint32(ttl)`
+  | some t => if t > 0 then (if t > Generated.msgRetainedTTL then Generated.msgRetainedTTL else t.toNat) else t0   -- clamped (D15 repair)
   | none => t0
 
 /-- `SSD.Store`: RetainedTTL ↦ the configured retention -/
@@ -203,7 +206,7 @@ def lastWill (auth : Auth) (b : B) (c : Conn) : B × Out :=
   | some g =>
       if g.has permExtend then (b, []) else
       let ssid := g.contract :: ch.query
-      let ttl : Nat := if c.willRetain then Generated.msgRetainedTTL else 0
+      let ttl := ttlOf c.willRetain ch          -- same ttl handling as a publish (D15 repair)
       let b := if ttl > 0 && g.has permStore then storeMsg b ⟨ssid, ch.channel, c.willMessage, ttl⟩ else b
       (b, deliver b ssid none (.pub ch.channel c.willMessage))
 
@@ -295,7 +298,7 @@ def step (auth : Auth) (b : B) (name : String) (r : Req) : B × Out :=
               strOf x.guid ++ (if x.username.isEmpty then "" else "/" ++ strOf x.username))
             let whoS := ";".intercalate (who.toArray.qsort (· < ·)).toList
             (b, nout ++ [(name, .json topic s!"channel={strOf channel},event=status,req={mid},status=200,who=[{whoS}]"), (name, .puback mid)])
-          else (b, nout ++ [(name, .json topic s!"req={mid},status=200"), (name, .puback mid)])
+          else (b, nout ++ [(name, .json topic s!"channel=,event=,req={mid},status=200,who=[]"), (name, .puback mid)])
   | .close => closeConn auth b c
 
 /-- a new connection is accepted -/
